@@ -277,6 +277,11 @@ def make_real_node(nan):
         restart = shutdown = None
 
     _node_counter[0] += 1
+    # the loggers of the nodes made before are garbage (one node is in use at a time), but the logging module keeps
+    # every logger ever made and walks through all of them at each setLevel: forget them
+    known = logging.Logger.manager.loggerDict
+    for name in [n for n in known if n.startswith('c07n')]:
+        del known[name]
     root = mlzlog.MLZLogger('c07n%d' % _node_counter[0])
     root.setLevel(logging.DEBUG)
     root.addHandler(RemoteLogHandler())
@@ -470,43 +475,61 @@ def run_concurrent(case):
 
 def evaluate_concurrent(ctx, case):
     """run and judge one concurrent case; returns {'bad': None | {...}, 'res': ...}"""
-    res = run_concurrent(case)
-    streams = {'A': b''.join(bytes.fromhex(c) for c in case['chunks']), 'B': b''.join(ln + b'\n' for ln in B_SCRIPT)}
-    reqs = []
-    for name in 'AB':
-        outs = res[name]['lines']
-        reqs.append({'p': 'C07', 'k': 'judge', 'stream': hx(streams[name]), 'outs': [hx(o) for o in outs],
-                     'flags': [line_flags(o, True) for o in outs]})
-    reqs.append({'p': 'C07', 'k': 'judge_events', 'outs': [hx(o) for o in res['B']['lines']], 'subscribed': [hx(x) for x in B_SUBSCRIBED]})
-    reqs.append({'p': 'C07', 'k': 'neutral', 'stream': hx(streams['A'])})
-    ja, jb, je, na = ctx.driver.batch(reqs)
-    for a in (ja, jb, je, na):
+    return evaluate_concurrent_many(ctx, [case])[0]
+
+
+def evaluate_concurrent_many(ctx, cases):
+    """run the concurrent cases, then judge all of them (two driver batches)"""
+    stream_b = b''.join(ln + b'\n' for ln in B_SCRIPT)
+    runs, reqs = [], []
+    for case in cases:
+        res = run_concurrent(case)
+        streams = {'A': b''.join(bytes.fromhex(c) for c in case['chunks']), 'B': stream_b}
+        for name in 'AB':
+            outs = res[name]['lines']
+            reqs.append({'p': 'C07', 'k': 'judge', 'stream': hx(streams[name]), 'outs': [hx(o) for o in outs],
+                         'flags': [line_flags(o, True) for o in outs]})
+        reqs.append({'p': 'C07', 'k': 'judge_events', 'outs': [hx(o) for o in res['B']['lines']],
+                     'subscribed': [hx(x) for x in B_SUBSCRIBED]})
+        reqs.append({'p': 'C07', 'k': 'neutral', 'stream': hx(streams['A'])})
+        runs.append((case, res, streams))
+    ans = ctx.driver.batch(reqs)
+    for a in ans:
         if 'driver_error' in a:
             raise RuntimeError(a)
-    ji = None
-    if all(na['neutral']):
-        # nothing A sends is carried out by a module: B must be answered as if A (all of it left out) had never connected
-        alone = run_session({'kind': 'real'}, [[hx(streams['B'])]])[0]
-        ji = ctx.driver.batch([{'p': 'C07', 'k': 'judge_indep', 'conns': [
-            {'stream': hx(streams['A']), 'keep': [False] * len(na['neutral']),
-             'all': [hx(canon_frame(o)) for o in res['A']['lines']], 'kept': []},
-            {'stream': hx(streams['B']), 'keep': [True] * len(B_SCRIPT),
-             'all': [hx(canon_frame(o)) for o in res['B']['lines']], 'kept': [hx(canon_frame(o)) for o in alone['outs']]}]}])[0]
-        if 'driver_error' in ji:
+    reqs2, idx = [], []
+    for i, (case, res, streams) in enumerate(runs):
+        na = ans[4 * i + 3]
+        if all(na['neutral']):
+            # nothing A sends is carried out by a module: B must be answered as if A (all of it left out) had never connected
+            alone = run_session({'kind': 'real'}, [[hx(stream_b)]])[0]
+            res['B_alone'] = alone['outs']
+            idx.append(i)
+            reqs2.append({'p': 'C07', 'k': 'judge_indep', 'conns': [
+                {'stream': hx(streams['A']), 'keep': [False] * len(na['neutral']),
+                 'all': [hx(canon_frame(o)) for o in res['A']['lines']], 'kept': []},
+                {'stream': hx(stream_b), 'keep': [True] * len(B_SCRIPT),
+                 'all': [hx(canon_frame(o)) for o in res['B']['lines']], 'kept': [hx(canon_frame(o)) for o in alone['outs']]}]})
+    indep = dict(zip(idx, ctx.driver.batch(reqs2))) if reqs2 else {}
+    out = []
+    for i, (case, res, streams) in enumerate(runs):
+        ja, jb, je = ans[4 * i:4 * i + 3]
+        ji = indep.get(i)
+        if ji is not None and 'driver_error' in ji:
             raise RuntimeError(ji)
-        res['B_alone'] = alone['outs']
-    bad = None
-    if res['errors']:
-        bad = {'clause': 'thread_died', 'errors': res['errors']}
-    elif ja['bad'] is not None:
-        bad = dict(ja['bad'], conn='A')
-    elif jb['bad'] is not None:
-        bad = dict(jb['bad'], conn='B')
-    elif je['bad'] is not None:
-        bad = {'clause': 'no_leak', 'i': je['bad'], 'conn': 'B'}
-    elif ji is not None and ji['bad'] is not None:
-        bad = dict(ji['bad'], conn='AB'[ji['bad']['conn']])
-    return {'bad': bad, 'res': res, 'case': case, 'compared_with_B_alone': ji is not None}
+        bad = None
+        if res['errors']:
+            bad = {'clause': 'thread_died', 'errors': res['errors']}
+        elif ja['bad'] is not None:
+            bad = dict(ja['bad'], conn='A')
+        elif jb['bad'] is not None:
+            bad = dict(jb['bad'], conn='B')
+        elif je['bad'] is not None:
+            bad = {'clause': 'no_leak', 'i': je['bad'], 'conn': 'B'}
+        elif ji is not None and ji['bad'] is not None:
+            bad = dict(ji['bad'], conn='AB'[ji['bad']['conn']])
+        out.append({'bad': bad, 'res': res, 'case': case, 'compared_with_B_alone': ji is not None})
+    return out
 
 
 def gen_concurrent(rng):
@@ -1309,8 +1332,8 @@ def run(ctx):
     conc = [c for c in conc_corpus]
     for _ in range(ctx.budget(80, 1200)):
         conc.append(gen_concurrent(rng))
-    for case in conc:
-        ev = evaluate_concurrent(ctx, case)
+    for ev in (e for lo in range(0, len(conc), 100) for e in evaluate_concurrent_many(ctx, conc[lo:lo + 100])):
+        case = ev['case']
         res.evaluations += 1
         res.traces += 2
         res.count('concurrent.cases')
